@@ -18,6 +18,7 @@ MANIFEST = {
     'technique': 'runtime post-condition monitor on the real sift + exit-path probe, seeded workload with feedback corpus',
 }
 LOGGER_ON_ODD_SHARDS = 'quarter'   # (sifting logs heavily: a quarter of the shards run with the logger set up)
+SESSION_NOISE = True      # every shard starts after unrelated session activity (harness.session_noise)
 BUDGET_S = {'quick': 60, 'thorough': 420}
 NCASES = {'quick': 3600, 'thorough': 48000}
 RULE = ('seeded random (family x length x stop rule x step x interpolation x pad width), plus a feedback corpus of '
